@@ -5,8 +5,10 @@
 package engine
 
 import (
+	"encoding/json"
 	"fmt"
 	"hash/fnv"
+	"math"
 	"sort"
 	"strings"
 	"time"
@@ -105,7 +107,54 @@ func (c *Ctx) Skip(reason string) {
 
 // Violation records a property violation for this execution.
 func (c *Ctx) Violation(sig string, detail map[string]any) {
-	c.viol = append(c.viol, Violation{Property: c.ex.Property, Sig: sig, Detail: detail})
+	c.viol = append(c.viol, Violation{Property: c.ex.Property, Sig: sig, Detail: SanitizeDetail(detail)})
+}
+
+// SanitizeDetail returns a copy of a detail map that encoding/json can always
+// encode (non-finite floats and unsupported values become strings), so that a
+// violation can never be lost on its way from a worker to the coordinator.
+func SanitizeDetail(d map[string]any) map[string]any {
+	out := make(map[string]any, len(d))
+	for k, v := range d {
+		out[k] = sanitizeValue(v)
+	}
+	return out
+}
+
+func sanitizeValue(v any) any {
+	switch t := v.(type) {
+	case float64:
+		if math.IsInf(t, 0) || math.IsNaN(t) {
+			return fmt.Sprint(t)
+		}
+		return t
+	case float32:
+		return sanitizeValue(float64(t))
+	case map[string]any:
+		return SanitizeDetail(t)
+	case []any:
+		r := make([]any, len(t))
+		for i := range t {
+			r[i] = sanitizeValue(t[i])
+		}
+		return r
+	case []float64:
+		r := make([]any, len(t))
+		for i := range t {
+			r[i] = sanitizeValue(t[i])
+		}
+		return r
+	case [3]float64:
+		return sanitizeValue(t[:])
+	case [2]float64:
+		return sanitizeValue(t[:])
+	case nil, string, bool, int, int64, int32, uint64, []string, []int64, []int:
+		return t
+	}
+	if _, err := json.Marshal(v); err != nil {
+		return fmt.Sprint(v)
+	}
+	return v
 }
 
 // Observe appends to the per-execution observation log (used by the
